@@ -121,6 +121,22 @@ def run(ck):
             bump("match_stream_traces_checked_on_impl")
             if r.get('vm') and r['vm'].get('skel') not in seen_sk and r['vm'].get('skel') != "[]":
                 seen_sk.add(r['vm']['skel'])
+    # ---------------- programs outside the fragment: WIDE self (tuple / record / sum-typed feedback value), first order --------
+    for case, r in wide_stream(ck, iexe, 200 if quick else 2500, 10 if quick else 24, "C05"):
+        src = case["src"]
+        if 'crash' in r:
+            mviol.append(("harness process died (memory corruption / abort) while running an accepted program with a wide self", src, {"rc": str(r['crash'])})); continue
+        if r.get("typecheck") != "ok":
+            bump("wide_stream_rejected"); continue
+        bad = impl_layout_predicates(r.get('vm'), r.get('wasm'))
+        if bad:
+            mviol.append((bad[0][0] + " (program with a tuple/record/sum-typed self, outside the Coq fragment)", src, {"detail": bad[0][1]}))
+        else:
+            bump("wide_stream_traces_checked_on_impl")
+            for sh in case["shapes"]:
+                bump("wide_self_" + sh)
+            if r.get('vm') and r['vm'].get('skel') not in seen_sk and r['vm'].get('skel') != "[]":
+                seen_sk.add(r['vm']['skel'])
     for what, src, det in mviol[:3]:
         ck.violation(what, {"source": src, **det, "how": "echo '{\"src\":<source>,\"n\":N,\"state\":true}' | .cache/target/lang/debug/lmmm_run"})
     viol = viol + [(w, None, d) for w, _, d in mviol]      # keeps the no-failing-input branches below quiet
